@@ -1084,6 +1084,20 @@ where
     /// * `pids` - A `HashSet` containing packet IDs of previously handled QoS 2 PUBLISH packets
     pub fn restore_qos2_publish_handled(&mut self, pids: HashSet<PacketIdType>) {
         self.qos2_publish_handled = pids;
+        if !self.qos2_publish_handled.is_empty() {
+            self.mark_restored_session_persistent();
+        }
+    }
+
+    /// Restored state belongs to a persistent session. Until a connection is established
+    /// (and its CONNECT / CONNACK decide about the session) it must survive a close like the
+    /// session it was exported from - in particular a first connection attempt that fails
+    /// before the CONNACK.
+    fn mark_restored_session_persistent(&mut self) {
+        if self.status == ConnectionStatus::Disconnected {
+            self.need_store = true;
+            self.need_store_before_connect = true;
+        }
     }
 
     /// Restore previously stored packets
@@ -1095,6 +1109,9 @@ where
     ///
     /// * `packets` - Vector of packets to restore
     pub fn restore_packets(&mut self, packets: Vec<GenericStorePacket<PacketIdType>>) {
+        if !packets.is_empty() {
+            self.mark_restored_session_persistent();
+        }
         for packet in packets {
             // An entry of the other protocol version cannot belong to this connection's session:
             // it could neither be retransmitted nor acknowledged (and would stay stored with a
